@@ -8,6 +8,7 @@
 package c16
 
 import (
+	"bytes"
 	"encoding/hex"
 	"encoding/json"
 	"fmt"
@@ -78,6 +79,9 @@ func buildPlan(env *runner.Env) {
 		{"sei-short", seiShortCount()},
 		{"ue", len(ueTargets) * uePositions * pick(2, 4)},
 		{"chain", pick(3000, 100000)},
+		{"chain-ue", buildSysPlan(seeds, th)},
+		{"ctx-ue", buildCtxUEPlan(th)},
+		{"sei-ue", buildSEIUEPlan(seeds, th)},
 		{"flip", pick(12000, 600000)},
 		{"lenprefix", pick(2000, 50000)},
 		{"splice", pick(2000, 50000)},
@@ -103,12 +107,17 @@ func init() {
 	runner.Register(&runner.Prop{
 		ID: "C16",
 		Rule: "One case = one hostile input (chain and sei-short: a small group of dependent inputs) sent through every exported byte-taking entry point of avc, hevc, sei, aac, av1 and mp4.Get{AVC,HEVC}ProtectRanges " +
-			"(raw and with the NAL header rewritten to the type the parser insists on; dependent parsers get maps of real parsed parameter sets for every id; ParseSEINalu gets nil and SPS values with every reachable HRD length; " +
+			"(raw and with the NAL header rewritten to the type the parser insists on; dependent parsers get maps of real parsed parameter sets for every id; ParseSEINalu gets nil and SPS values with every reachable HRD flag combination and 4-6 sets of the 5-bit lengths; " +
 			"the SEI decoders get the external-parameter combinations (all of them for SEI inputs, a rotating subset otherwise); Type/Size/String/Payload/WriteSEIMessages on every returned message; Size/Encode/EncodeSW on every decoded configuration record). " +
 			"Seeds: NAL units of the repo's Annex B test streams (split by ref/annexb), hex literals of the codec packages' tests, hand-built SEI payloads of every implemented type (incl. zero clock timestamps), AVC SPS with VUI+HRD, FMO PPS, slices with list modification/weights/marking, ADTS/ASC, avcC/hvcC/av1C. " +
 			"Generators: trunc (every prefix of every seed), const (00/ff/80/01/55 strings of every length <= 64 behind every NAL header), sei-short (21 SEI types x payload length 0..40 x 4 fills, direct and framed), " +
 			"ue (an Exp-Golomb code written at every RBSP bit position 0..319 of parameter set/slice/SEI seeds, RBSP re-escaped: pass 1 values 2^21/2^22, pass 2 values 32,64,255,256,65535,65536 and for 1/8 of the positions 2^24, 2^31, 2^32-2, 2^32-1), " +
-			"chain (mutated SPS/PPS parsed and then used as maps for the slices, SEI and protect ranges of the same stream), flip (bit flips/boundary bytes/cuts/inserts), lenprefix (hostile 4-byte length fields, samples of 0..7 bytes), splice, stream (mutated Annex B streams). " +
+			"chain (mutated SPS/PPS parsed and then used as maps for the slices, SEI and protect ranges of the same stream), " +
+			"chain-ue (systematic: for every parameter-set context - the repo's Annex B files, parameter sets of the test literals, the hand-built sets, and sets drawn with fixed generator seeds from the independent serializers ref/h264 and ref/h265 with weighted prediction, every slice group map type, redundant_pic_cnt, field coding, long-term references, tiles, entropy sync, lists modification, slice header extension and sub-picture HRD forced on - " +
+			"an Exp-Golomb code is written at every data bit position of the SPS and of the PPS, replacing the code that starts there and rebuilding rbsp_trailing_bits: values 2^32-1, 2^31, 65536 and 255 at every position and a single-bit flip of every position, in the thorough tier also 2^32-2, 2^31-1, 2^32, 2^24, 65535, 256 and the four primary values inserted instead of replacing; " +
+			"when the library accepts the hostile set, ordinary P/B/I slices of that context (with and without num_ref_idx_active_override; accepted by the library with the unmodified sets), its SEI units, a sample of the slices, ParsePPSNALUnit against a hostile SPS, the SPS methods and the DecConfRec constructors run with it; the tools get the Annex B stream with the hostile set in place), " +
+			"ctx-ue (systematic: the same forced codes - quick: the four primary values and the flip, as one group of dependent inputs - at each of the first 256 (thorough 768) RBSP bit positions of every slice of every context, parsed against the unmodified parameter sets of that context, so that the header branches a context switches on - long-term references, weight tables, entry points, header extension, slice groups - see extreme values), " +
+			"sei-ue (systematic: the same forced codes at every bit position of every SEI payload seed and of HEVC pic_timing payloads laid out for each of the 64 external-parameter sets = 16 combinations of the flags DecodePicTimingHevcSEI reads x 4 sets of lengths, handed to the decoders with every external-parameter set and framed for avc/hevc.ParseSEINalu with nil and every hand-built SPS value), flip (bit flips/boundary bytes/cuts/inserts), lenprefix (hostile 4-byte length fields, samples of 0..7 bytes), splice, stream (mutated Annex B streams). " +
 			"2 % of the cases also go through the mp4ff-nallister and mp4ff-pslister binaries. The library calls run in a probe subprocess of each worker whose monitor goroutine watches the call in flight " +
 			"(bytes allocated since the call started, runtime/metrics /gc/heap/allocs:bytes, against 8 MiB + 1024*len; process CPU time against 2 s + 20 us*len, a CPU exceedance must be reproduced in a fresh probe; " +
 			"after a hang key is confirmed, calls found at 30 ms CPU inside the same function are aborted and counted as presumed repeats, not reported); the runner watchdog (6 s CPU per case, RLIMIT_AS 3 GiB) is the backstop. " +
@@ -154,6 +163,12 @@ func run(c *runner.Ctx, idx int) {
 		genUE(x, sub)
 	case "chain":
 		j = genChain(x)
+	case "chain-ue":
+		j = genChainUE(x, c, sub)
+	case "ctx-ue":
+		j = genCtxUE(x, c, sub)
+	case "sei-ue":
+		j = genSEIUE(x, c, sub)
 	case "flip":
 		genFlip(x)
 	case "lenprefix":
@@ -180,7 +195,11 @@ func run(c *runner.Ctx, idx int) {
 	}
 	drive(c, j)
 	if useTools(c, idx) {
-		runTools(c, j.items[0].In, j.items[0].Desc)
+		if x.toolIn != nil {
+			runTools(c, x.toolIn, j.items[0].Desc+" (tools: Annex B stream of the parameter sets and slices)")
+		} else {
+			runTools(c, j.items[0].In, j.items[0].Desc)
+		}
 	}
 }
 
@@ -256,6 +275,11 @@ func finalize(a *runner.Agg) {
 		"*sei.MasteringDisplayColourVolumeSEI", "*sei.ContentLightLevelInformationSEI", "*sei.SEIData", "*sei.CEA608sei"} {
 		if a.Seen["sei_message_go_type"][t] == 0 {
 			a.Note("no SEI message of Go type %s was ever returned", t)
+		}
+	}
+	for _, k := range []string{"avc-sps", "avc-pps", "hevc-sps", "hevc-pps"} {
+		if a.Seen["chain_ue_accepted_kind"][k] == 0 {
+			a.Note("chain-ue: no hostile %s was accepted by the library, its dependent parsers never ran with one", k)
 		}
 	}
 	if a.Counters["tool_runs"] == 0 {
@@ -684,10 +708,11 @@ func genStream(x *runCtx) {
 // ---------------------------------------------------------------------------
 // chain: hostile parameter sets feeding the dependent parsers
 
-// chainMaps parses the given (mutated) parameter sets and returns maps in which
-// every id resolves to one of them where they parsed.
-func chainMaps(x *runCtx, codec string, ps [][]byte) *psMaps {
-	m := &psMaps{avcSPS: map[uint32]*avc.SPS{}, avcPPS: map[uint32]*avc.PPS{}, hevcSPS: map[uint32]*hevc.SPS{}, hevcPPS: map[uint32]*hevc.PPS{},
+// chainMaps parses the base parameter sets of the stream (if given) and then
+// the hostile ones, and returns maps in which every id resolves to the last
+// set of its kind that parsed. hostileOK reports whether PS[0] was accepted.
+func chainMaps(x *runCtx, ch *chainDetail) (m *psMaps, hostileOK bool) {
+	m = &psMaps{avcSPS: map[uint32]*avc.SPS{}, avcPPS: map[uint32]*avc.PPS{}, hevcSPS: map[uint32]*hevc.SPS{}, hevcPPS: map[uint32]*hevc.PPS{},
 		avcSEISPS: defaultMaps.avcSEISPS, hevcSEISPS: defaultMaps.hevcSEISPS}
 	for k, v := range defaultMaps.avcSPS {
 		m.avcSPS[k] = v
@@ -701,92 +726,150 @@ func chainMaps(x *runCtx, codec string, ps [][]byte) *psMaps {
 	for k, v := range defaultMaps.hevcPPS {
 		m.hevcPPS[k] = v
 	}
-	if codec == "avc" {
-		var gotSPS []*avc.SPS
-		for _, u := range ps {
+	unhexAll := func(l []string) [][]byte {
+		var o [][]byte
+		for _, h := range l {
+			o = append(o, unhex(h))
+		}
+		return o
+	}
+	if len(ch.Base) > 0 {
+		parsePSInto(x, ch, m, unhexAll(ch.Base), false)
+	}
+	ok := parsePSInto(x, ch, m, unhexAll(ch.PS), true)
+	n := 0
+	for _, b := range ok {
+		if b {
+			n++
+		}
+	}
+	if n > 0 {
+		x.c.Count("chain_hostile_parameter_sets_parsed", int64(n))
+	}
+	return m, len(ok) > 0 && ok[0]
+}
+
+// parsePSInto parses the units (SPS first, then PPS against the SPS map as it
+// stands) and makes every id resolve to what parsed. hostile: the units are
+// mutated sets (a parsed SPS with VUI is also handed to the SEI parsers, and
+// for chain-ue the SPS methods and configuration-record constructors run).
+func parsePSInto(x *runCtx, ch *chainDetail, m *psMaps, ps [][]byte, hostile bool) []bool {
+	ok := make([]bool, len(ps))
+	if ch.Codec == "avc" {
+		for i, u := range ps {
 			u := u
 			if len(u) == 0 || u[0]&0x1f != 7 {
 				continue
 			}
+			var s *avc.SPS
 			x.call("avc.ParseSPSNALUnit", len(u), func() {
-				if s, _ := avc.ParseSPSNALUnit(u, true); s != nil {
-					gotSPS = append(gotSPS, s)
+				if v, err := avc.ParseSPSNALUnit(u, true); err == nil && v != nil {
+					s = v
 				}
 			})
-		}
-		for _, s := range gotSPS {
+			if s == nil {
+				continue
+			}
+			ok[i] = true
 			for id := uint32(0); id < 32; id++ {
 				m.avcSPS[id] = s
 			}
 			m.avcSPS[s.ParameterID] = s
-			if s.VUI != nil {
+			if hostile && s.VUI != nil {
 				m.avcSEISPS = append([]*avc.SPS{s}, m.avcSEISPS...)
 			}
+			if hostile && ch.Sys {
+				x.call("avc.SPS methods", len(u), func() {
+					_ = avc.CodecString("avc1", s)
+					_ = s.ConstraintFlags()
+					_ = s.CpbDpbDelaysPresent()
+					_ = s.PicStructPresent()
+					_ = s.ChromaArrayType()
+				})
+				x.call("avc.CreateAVCDecConfRec", len(u), func() {
+					if dcr, err := avc.CreateAVCDecConfRec([][]byte{u}, [][]byte{{0x68, 0xce, 0x38, 0x80}}, true); err == nil && dcr != nil {
+						var buf bytes.Buffer
+						_ = dcr.Encode(&buf)
+					}
+				})
+			}
 		}
-		var gotPPS []*avc.PPS
-		for _, u := range ps {
+		for i, u := range ps {
 			u := u
 			if len(u) == 0 || u[0]&0x1f != 8 {
 				continue
 			}
+			var p *avc.PPS
 			x.call("avc.ParsePPSNALUnit", len(u), func() {
-				if p, _ := avc.ParsePPSNALUnit(u, m.avcSPS); p != nil {
-					gotPPS = append(gotPPS, p)
+				if v, err := avc.ParsePPSNALUnit(u, m.avcSPS); err == nil && v != nil {
+					p = v
 				}
 			})
-		}
-		for _, p := range gotPPS {
-			for id := uint32(0); id < 64; id++ {
+			if p == nil {
+				continue
+			}
+			ok[i] = true
+			for id := uint32(0); id < 256; id++ {
 				m.avcPPS[id] = p
 			}
 			m.avcPPS[p.PicParameterSetID] = p
 		}
-		if len(gotSPS) > 0 || len(gotPPS) > 0 {
-			x.c.Count("chain_hostile_parameter_sets_parsed", int64(len(gotSPS)+len(gotPPS)))
-		}
-		return m
+		return ok
 	}
-	var gotSPS []*hevc.SPS
-	for _, u := range ps {
+	for i, u := range ps {
 		u := u
 		if len(u) == 0 || (u[0]>>1)&0x3f != 33 {
 			continue
 		}
+		var s *hevc.SPS
 		x.call("hevc.ParseSPSNALUnit", len(u), func() {
-			if s, _ := hevc.ParseSPSNALUnit(u); s != nil {
-				gotSPS = append(gotSPS, s)
+			if v, err := hevc.ParseSPSNALUnit(u); err == nil && v != nil {
+				s = v
 			}
 		})
-	}
-	for _, s := range gotSPS {
+		if s == nil {
+			continue
+		}
+		ok[i] = true
 		for id := uint32(0); id < 16; id++ {
 			m.hevcSPS[id] = s
 		}
-		if s.VUI != nil {
+		if hostile && s.VUI != nil {
 			m.hevcSEISPS = append([]*hevc.SPS{s}, m.hevcSEISPS...)
 		}
+		if hostile && ch.Sys {
+			x.call("hevc.SPS methods", len(u), func() {
+				_, _ = s.ImageSize()
+				_ = hevc.CodecString("hvc1", s)
+			})
+			x.call("hevc.CreateHEVCDecConfRec", len(u), func() {
+				if dcr, err := hevc.CreateHEVCDecConfRec([][]byte{{0x40, 0x01, 0x0c}}, [][]byte{u}, [][]byte{{0x44, 0x01, 0xc0}}, true, true, true, true); err == nil {
+					var buf bytes.Buffer
+					_ = dcr.Encode(&buf)
+				}
+			})
+		}
 	}
-	var gotPPS []*hevc.PPS
-	for _, u := range ps {
+	for i, u := range ps {
 		u := u
 		if len(u) == 0 || (u[0]>>1)&0x3f != 34 {
 			continue
 		}
+		var p *hevc.PPS
 		x.call("hevc.ParsePPSNALUnit", len(u), func() {
-			if p, _ := hevc.ParsePPSNALUnit(u, m.hevcSPS); p != nil {
-				gotPPS = append(gotPPS, p)
+			if v, err := hevc.ParsePPSNALUnit(u, m.hevcSPS); err == nil && v != nil {
+				p = v
 			}
 		})
-	}
-	for _, p := range gotPPS {
+		if p == nil {
+			continue
+		}
+		ok[i] = true
 		for id := uint32(0); id < 64; id++ {
 			m.hevcPPS[id] = p
 		}
 	}
-	if len(gotSPS) > 0 || len(gotPPS) > 0 {
-		x.c.Count("chain_hostile_parameter_sets_parsed", int64(len(gotSPS)+len(gotPPS)))
-	}
-	return m
+	return ok
 }
 
 // mutatePS damages one parameter set: byte mutations or a forced ue(v).
@@ -825,12 +908,16 @@ func genChain(x *runCtx) *job {
 	codec := r.PickStr("avc", "hevc")
 	var g psGroup
 	hdr := 1
-	if codec == "avc" {
-		g = seeds.avcGroups[r.Intn(len(seeds.avcGroups))]
-	} else {
-		g = seeds.hevcGroups[r.Intn(len(seeds.hevcGroups))]
+	// the repo's streams and (half of the time) the contexts of the systematic plan
+	groups := seeds.avcGroups
+	if codec == "hevc" {
+		groups = seeds.hevcGroups
 		hdr = 2
 	}
+	if len(extraGroups[codec]) > 0 && r.Bool() {
+		groups = extraGroups[codec]
+	}
+	g = groups[r.Intn(len(groups))]
 	spsL, ppsL := g.sps, g.pps
 	if codec == "avc" && r.Chance(1, 2) {
 		// hand-built sets (HRD, FMO, scaling lists) and slices
